@@ -7,7 +7,12 @@ import sys
 
 HERE = os.path.dirname(os.path.dirname(os.path.abspath(__file__)))
 
-TB = "CPython ast parser; /verif/sa engines; transcription of the standards in /verif/spec"
+TB = (
+    "CPython ast parser; /verif/sa engines; transcription of the standards in /verif/spec. Every check that uses an object "
+    "model also decides: caches in shared tables keyed by something that determines the stored value (<id>.state.memo), and "
+    "that the constructed state does not depend on the order of the parsed map or of a set (<id>.model.order / .hashorder: "
+    "second object model with both reversed)"
+)
 
 # id -> (category, technique, design_ref, level text, level note)
 CLAIMED = {
@@ -147,7 +152,8 @@ CLAIMED = {
         "DESIGN.md section 4 C12",
         "rh_vector() = str(scores()[0]) + '/' + clean_vector() (value graph). from_rh_vector: for 143 representative strings per "
         "version (score texts x vector parts, strings without '/') the outcome read off the value graph - object returned or class "
-        "raised - is the one the property states.",
+        "raised - is the one the property states; a result kept in class- or module-level state and consulted again must be keyed "
+        "by something that determines the required outcome (C12.sem.history).",
         "from_rh_vector is decided on representatives, not for all strings; the constructor stub rests on C04. Round trip by "
         "composition with C07.reparse, C09.quantised and float repr round-trip. Trusted: " + TB,
     ),
